@@ -51,7 +51,7 @@ Definition render_meth (m : meth) : list string :=
    (if m_locations m then [ln 2 "tok = self._tokenizer.peek()"; ln 2 "start_lineno, start_col_offset = tok.start"] else []) ++
    (if m_loop m then [ln 2 "children = []"] else []) ++
    flat_map (render_alt m) (m_alts m) ++
-   add_return m 2 (if m_loop m then "children" else "None"))%list.
+   add_return m 2 (if m_loop m then (if is_loop1_name (m_name m) then "children or None" else "children") else "None"))%list.
 
 (* repr(tuple(sorted(...))) *)
 Definition py_tuple (l : list string) : string :=
